@@ -14,9 +14,12 @@ from typing import Dict, List, Optional, Set, Tuple
 from .model import Program, Function, Class
 
 SAME, PART, VIEW, FRESH = "same", "part", "view", "fresh"
+# a shallow copy: a new container whose variables still hold the operand's buffers.  Rebinding a variable of the copy is not a write
+# to the operand; an in-place update of one (`copy[name] *= x`, `copy[name].values[...] = x`) is.
+SHALLOW = "shallow"
 
 # xarray / numpy operations that return a new object holding *new* data
-FRESH_METHODS = {"copy", "fillna", "where", "assign", "sum", "mean", "std", "integrate", "argmax", "argmin", "max", "min",
+FRESH_METHODS = {"fillna", "where", "assign", "sum", "mean", "std", "integrate", "argmax", "argmin", "max", "min",
                  "astype", "differentiate", "cumsum", "concat", "interp", "reindex_like", "diff", "isnull", "notnull", "all",
                  "any", "to_dataframe", "to_array", "reset_coords", "drop", "drop_vars", "rename", "expand_dims", "squeeze",
                  "transpose", "dropna", "flatten"}
@@ -142,6 +145,8 @@ class Effects:
                         out.append((root, PART)) if e.attr in PART_ATTRS else None
                 elif kind in (PART, VIEW):
                     out.append((root, kind))
+                elif kind == SHALLOW:
+                    out.append((root, SHALLOW))
             return out
         if isinstance(e, ast.Subscript):
             base = self.alias_of(e.value, aliases, f, recv_cls)
@@ -150,6 +155,25 @@ class Effects:
             fn = e.func
             if isinstance(fn, ast.Attribute):
                 base = self.alias_of(fn.value, aliases, f, recv_cls)
+                if fn.attr == "copy":
+                    # numpy copies are deep; the wrapper's copy() is deep by default; xarray's Dataset/DataArray.copy() is shallow by
+                    # default (new container, same buffers)
+                    deep = None
+                    for k_ in e.keywords:
+                        if k_.arg == "deep" and isinstance(k_.value, ast.Constant):
+                            deep = bool(k_.value.value)
+                        elif k_.arg == "deep":
+                            deep = False  # not a constant: may be shallow
+                    if e.args and isinstance(e.args[0], ast.Constant):
+                        deep = bool(e.args[0].value)
+                    out_ = []
+                    for r_, k_ in base:
+                        if k_ in (FRESH, VIEW):
+                            continue
+                        d_ = deep if deep is not None else (k_ == SAME)
+                        if not d_:
+                            out_.append((r_, SHALLOW))
+                    return out_
                 if fn.attr in FRESH_METHODS:
                     return []
                 if fn.attr in VIEW_METHODS:
@@ -213,11 +237,16 @@ class Effects:
             for t in targets:
                 for el in (t.elts if isinstance(t, (ast.Tuple, ast.List)) else [t]):
                     if isinstance(el, ast.Subscript):
-                        for root, kind, ag in self._alias_entries(el.value, aliases, f, recv_cls):
+                        for root, kind, ag in self._alias_entries(el.value, self._aliases_at(f, recv_cls, n, el.value, aliases), f, recv_cls):
                             if kind == FRESH:
                                 continue
-                            k = "buffer-store" if kind == VIEW else "item-store"
-                            s.writes.append(Write(root, k, n, ast.unparse(el)[:80], self.enclosing_tests(f.node, n), ag))
+                            if kind == SHALLOW and not isinstance(n, ast.AugAssign):
+                                continue  # rebinding a variable of a shallow copy leaves the operand alone
+                            # `x[name] op= v` on an xarray container updates the stored array in place: every object sharing the buffer
+                            # (views from isel / slicing / flatten, shallow copies) changes with it
+                            aug_inplace = isinstance(n, ast.AugAssign) and not self._scalar_slot(el)
+                            k = "buffer-store" if (kind in (VIEW, SHALLOW) or aug_inplace) else "item-store"
+                            s.writes.append(Write(root, k, n, ast.unparse(n if aug_inplace else el)[:80], self.enclosing_tests(f.node, n), ag))
                     elif isinstance(el, ast.Name) and isinstance(n, ast.AugAssign):
                         # `x = operand["key"]` / `x = operand[a:b]` / `x = operand.values` followed by `x op= ...`: for an array this is an
                         # in-place update of the operand's data, not a rebinding (element reads `operand[i]` are scalars and excluded)
@@ -247,6 +276,71 @@ class Effects:
         self.in_progress.discard(key)
         self.summaries[key] = s
         return s
+
+    def _aliases_at(self, f, recv_cls, stmt, expr, aliases):
+        """flow-sensitive refinement for the base name of `expr` at statement `stmt`: when an assignment `name = value` precedes the
+        statement unconditionally in the same block or an enclosing one (no other assignment to the name in between), the name holds
+        that value there - `if x is None: x = {}; x[k] = v` writes the fresh dict, not the caller's."""
+        base = expr
+        while isinstance(base, (ast.Attribute, ast.Subscript, ast.Call)):
+            base = base.value if not isinstance(base, ast.Call) else base.func
+        if not isinstance(base, ast.Name):
+            return aliases
+        name = base.id
+
+        def assigns_name(node):
+            for x in ast.walk(node):
+                if isinstance(x, (ast.Assign, ast.AnnAssign, ast.AugAssign, ast.NamedExpr, ast.For)):
+                    tg = x.targets if isinstance(x, ast.Assign) else [x.target]
+                    for t in tg:
+                        if any(isinstance(y, ast.Name) and y.id == name and isinstance(y.ctx, ast.Store) for y in ast.walk(t)):
+                            return True
+            return False
+
+        def path_to(stmts):
+            for i, st in enumerate(stmts):
+                if st is stmt:
+                    return [(stmts, i)]
+                for fld in ("body", "orelse", "finalbody"):
+                    sub = getattr(st, fld, None)
+                    if isinstance(sub, list) and sub and isinstance(sub[0], ast.stmt):
+                        r = path_to(sub)
+                        if r is not None:
+                            return [(stmts, i)] + r
+                for h in getattr(st, "handlers", []) or []:
+                    r = path_to(h.body)
+                    if r is not None:
+                        return [(stmts, i)] + r
+            return None
+
+        path = path_to(f.node.body)
+        if path is None:
+            return aliases
+        for stmts, i in reversed(path):
+            # a loop around the statement may carry a later assignment back to it
+            for st in reversed(stmts[:i]):
+                if isinstance(st, ast.Assign) and len(st.targets) == 1 and isinstance(st.targets[0], ast.Name) and st.targets[0].id == name:
+                    al = self.alias_of(st.value, aliases, f, recv_cls)
+                    out = dict(aliases)
+                    out[name] = [(r, k, ()) for r, k in al]
+                    return out
+                if assigns_name(st):
+                    return aliases
+            owner = None
+            # stop refining when leaving a loop body (the name may be reassigned later in the loop)
+            idx = path.index((stmts, i))
+            if idx > 0:
+                owner = path[idx - 1][0][path[idx - 1][1]]
+            if isinstance(owner, (ast.For, ast.While)) and assigns_name(owner):
+                return aliases
+        return aliases
+
+    @staticmethod
+    def _scalar_slot(el: ast.Subscript) -> bool:
+        """a slot addressed by a literal number holds a number (`counts[0] += 1`); the slots of the operands' xarray containers are
+        addressed by variable names and hold arrays"""
+        sl = el.slice
+        return isinstance(sl, ast.Constant) and not isinstance(sl.value, str)
 
     def _own(self, node):
         stack = list(ast.iter_child_nodes(node))
